@@ -425,6 +425,24 @@ fn mutations(b: &Base, r: &mut Rng, budget: usize, exhaustive_bits: bool, out: &
         // as many minimal layers as the count byte allows
         let mut m = bytes[..rp].to_vec(); for _ in lay.nlayers..255 { m.extend_from_slice(&layer); } m.extend_from_slice(&bytes[rp..]); m[cnt] = 255; out.push(vcase(b, "layers:=255".into(), m));
     }
+    // options whose folding schedule runs below the folding factor, with exactly the layers and commitments they imply
+    // (mutating the options alone is stopped by the layer-count check): fold 16 / 8 / 4, remainder degree 0, 1
+    {
+        let lde = b.spec.n() * b.opts[1] as usize;
+        for (f, r_) in [(16u8, 0u8), (16, 1), (8, 0), (4, 0), (2, 0)] {
+            let (mut d, mut k) = (lde, 0usize);
+            while d > (r_ as usize + 1) * b.opts[1] as usize { d /= f as usize; k += 1; }
+            let mut m = bytes.clone(); m[lay.get("o.fold").start] = f; m[lay.get("o.rem").start] = r_;
+            let rp = lay.get("fri.remainder").pfx.unwrap().0; let a = lay.get("fri.nlayers").start + 1;
+            let mut layer = vec![]; layer.extend_from_slice(&((eb * f as usize) as u32).to_le_bytes()); layer.extend(std::iter::repeat(0u8).take(eb * f as usize)); layer.extend_from_slice(&2u32.to_le_bytes()); layer.extend_from_slice(&[1, 0]);
+            let mut m2 = m[..a].to_vec(); for _ in 0..k { m2.extend_from_slice(&layer); } m2.extend_from_slice(&m[rp..]); m2[a - 1] = k as u8;
+            if let Some(l3) = dissect(&m2) {
+                let nseg = if b.spec.aux_width > 0 { 2 } else { 1 };
+                let m3 = splice(&m2, l3.get("commitments"), &vec![0u8; dl * (nseg + 1 + k + 1)]);
+                out.push(vcase(b, format!("schedule:fold={},rem={},layers={},last-domain={}", f, r_, k, d), m3));
+            }
+        }
+    }
     // Lagrange kernel frame present although the AIR has no such column (with and without the matching change of the trace states)
     {
         let s = lay.get("ood.lagrange");
@@ -676,8 +694,11 @@ fn build_cases(seed: u64, n: usize, corpus: &str) -> Vec<Case> {
         let mut cs = Vec::new();
         mutations(b, &mut r, per / 4, exhaustive, &mut cs);
         component_cases(b, &mut r, &mut cs);
-        // recompute ncols for perturbed public inputs is not needed: Air::new panics first (the model says so too)
+        // every 16th mutant also as a from_bytes-only case with the allocator's byte count (ties the accounting model on
+        // proof-shaped inputs: FRI layers, hostile gkr lengths, resized components)
+        let extra: Vec<Case> = cs.iter().enumerate().filter(|(j, _)| j % 16 == 0).filter_map(|(_, c)| match c { Case::V(v) => Some(Case::Line(format!("alloc:{}", v.label), format!("P {}", hex_bytes(&v.bytes)))), _ => None }).collect();
         out.extend(cs);
+        out.extend(extra);
     }
     out
 }
